@@ -68,11 +68,27 @@ func parseFloat(s []byte) float64 {
 // just eats the overhead of copying to string and calling the standard library,
 // except in a few common cases.
 func parseFloat32(s []byte) float32 {
+	f, ok := tryParseFloat32(s)
+	if !ok {
+		panic("value out of range " + string(s))
+	}
+	return f
+}
+
+// tryParseFloat32 parses bytes as a 32-bit float.
+//
+// Returns false if the value is out of range for a 32-bit float.  Panics on
+// otherwise invalid input, since the tokenizer is supposed to guarantee valid
+// input.
+func tryParseFloat32(s []byte) (float32, bool) {
 	f, err := strconv.ParseFloat(string(s), 32)
 	if err != nil {
+		if ne, ok := err.(*strconv.NumError); ok && ne.Err == strconv.ErrRange {
+			return float32(f), false
+		}
 		panic(err)
 	}
-	return float32(f)
+	return float32(f), true
 }
 
 // roundUpTo rounds a value away from zero to the nearest 1/granularity.
